@@ -249,6 +249,30 @@ def wide_task(t):
                         report("%s-rejects-in-range" % form, ww, v, "raised")
                 except Exception as ex:  # noqa: BLE001
                     report("%s-raises-other" % form, ww, v, "raised %s: %s" % (type(ex).__name__, str(ex)[:80]))
+            # enforced width at this size too: all witness choices, error checking off
+            for meth in ("to_bits", "assert_positive"):
+                H.reset(bitlength=n)
+                x = rt.PrivVal(v)
+                rt.ignore_errors(True)
+                try:
+                    getattr(x, meth)() if w is None else getattr(x, meth)(w)
+                except Exception as ex:  # noqa: BLE001
+                    rt._ignore_errors = False
+                    report("raises-with-errors-ignored", ww, v, "%s raised %s" % (meth, type(ex).__name__))
+                    continue
+                rt._ignore_errors = False
+                st["e2_instances"] += 1
+                try:
+                    sols, undec, s_ = W.exact(H.R.cons, len(H.R.vars), {1: v % p}, p)
+                except W.Capped:
+                    st["undecided"] += 1
+                    continue
+                st["nodes"] += s_["nodes"]
+                if undec:
+                    st["undecided"] += 1
+                elif bool(sols) != inr:
+                    report("%s-width-not-enforced" % meth, ww, v, "system %s although the value %s a %d-bit non-negative integer"
+                           % ("satisfiable" if sols else "unsatisfiable", "is" if inr else "is not", ww))
     return {"st": st, "viols": viols, "states": 0}
 
 
